@@ -19,13 +19,19 @@ def run(tier):
     # the same element with noexcept moves that cannot fail and copies that can (like std::string): exposes code whose
     # exception specification follows the move although it copies
     exe_nm = arrays.build(wd, 2, name="replay_arrays_2nm", extra_flags=["-DVERIF_TRACKED_NOEXCEPT_MOVE"])
+    # ... and an allocator that constructs the elements itself and can fail doing so (uses-allocator construction, as with pmr)
+    exe_nmcf = arrays.build(wd, 2, name="replay_arrays_2nmcf", extra_flags=["-DVERIF_TRACKED_NOEXCEPT_MOVE", "-DVERIF_ALLOC_CONSTRUCT_FAULTS"])
     d0ops = ["ctor_default", "ctor_ext", "ctor_fill", "ctor_copy", "ctor_move", "assign_copy", "assign_move", "self_assign", "swap", "write", "destroy"]
     # a trivially copyable, trivially destructible element whose default and converting constructors can fail: "plain memory"
     # as far as copies go, yet sizing constructors and construction from an array of another element type can still throw
     exe_tpod = arrays.build(wd, 4)
     TPOD_OPS = ["ctor_default", "ctor_ext", "ctor_fill", "ctor_iota", "ctor_other", "assign_other", "ctor_copy", "assign_copy", "reextent", "reextent_fill", "destroy"]
     plan = [("c09_d1_tpod", consts(1, 2, 2, False, TPOD_OPS), exe_tpod), ("c09_d2_tpod", consts(2, 2, 2, False, TPOD_OPS), exe_tpod), ("c09_d0", consts(0, 0, 3, False, d0ops), exe_trk), ("c09_d1", consts(1, 2, 3, False, ALL_OPS), exe_trk), ("c09_d2", consts(2, 2, 2, False, ALL_OPS), exe_trk),
-            ("c09_d1_nm", consts(1, 2, 3, False, NM_OPS), exe_nm), ("c09_d2_nm", consts(2, 2, 2, False, ALL_OPS), exe_nm)]
+            ("c09_d1_nm", consts(1, 2, 3, False, NM_OPS), exe_nm), ("c09_d2_nm", consts(2, 2, 2, False, ALL_OPS), exe_nm),
+            ("c09_d1_nmcf", consts(1, 2, 3, False, NM_OPS), exe_nmcf),
+            # unequal, non-propagating allocators: move construction with an allocator / move assignment transfer element by element
+            ("c09_d1_nmcf_al", dict(consts(1, 2, 3, False, ["ctor_iota_al", "ctor_copy_al", "ctor_move_al", "assign_copy", "assign_move", "assign_view", "reextent"]),
+                                    AllocIds={1, 3}), exe_nmcf)]
     if tier == "thorough":
         plan += [("c09_d1_deep", consts(1, 2, 3, False, ALL_OPS), exe_trk), ("c09_d2_deep", consts(2, 2, 3, False, ALL_OPS), exe_trk),
                  ("c09_d3", consts(3, 2, 2, False, ALL_OPS), exe_trk), ("c09_d1_nm_deep", consts(1, 2, 3, False, ALL_OPS), exe_nm)]
